@@ -28,3 +28,187 @@ KANI = [
        "too_far never rejects overlapping axis-aligned boxes; symmetric; false for a box with itself",
        "left/top k/4 in [-4,4], width/height k/2 in (0,4], exact aspects", [B + "Universal2DBox::too_far", B + "Universal2DBox::get_radius"]),
 ]
+
+# ===================================================================== engine M: structure of the rotated-box pipeline
+import z3
+from mir_engine import MQ
+from mirlib import *
+
+EXPLANATION += (" Engine M (bounded symbolic execution of the MIR with z3): Universal2DBox::intersection is 0 exactly for pairs the "
+                "pre-filter rejects and otherwise the area of the clip of the two polygons generated from the boxes' CURRENT "
+                "centre / angle / aspect / height (angle None treated as 0) - a stale vertex cache carried by an argument is "
+                "never trusted, the arguments are not modified; the IoU wrappers of Universal2DBox and "
+                "VisualObservationAttributes return None exactly when the intersection is 0 (or a box is missing) and "
+                "intersection / (area1 + area2 - intersection) otherwise. Polygon generation, clipping and polygon area are "
+                "uninterpreted here (vertex formula: C19; clip on rotated boxes: outside).")
+ASSUMPTIONS += ["M: Polygon::from(&box), sutherland_hodgman_clip and unsigned_area are uninterpreted functions of their arguments; too_far an arbitrary Boolean; intersection values from the exact grid {0,.5,1,3,8}, box sizes from {1,2,4} x {.5,1,2}"]
+
+
+def _geo_calls(P):
+    def box_key(vm, b):
+        while isinstance(b, Ref):
+            b = vm.deref(b)
+        f = lambda n: fld(P, b, 'Universal2DBox', n)
+        ang = f('angle')
+        return (repr(fp_plain(f('xc'))), repr(fp_plain(f('yc'))), repr(fp_plain(ang.fields[0])) if ang.variant == 1 else None, repr(f('aspect')), repr(f('height')))
+
+    def poly_from(vm, cal, args):
+        k = box_key(vm, args[0])
+        vm.notes.setdefault('poly_from', []).append(k)
+        return Opaque('Polygon', ('poly', k))
+
+    def clip(vm, cal, args):
+        a, b = args
+        while isinstance(a, Ref):
+            a = vm.deref(a)
+        while isinstance(b, Ref):
+            b = vm.deref(b)
+        vm.notes.setdefault('clips', []).append((a.tag, b.tag))
+        return Opaque('Polygon', ('clip', a.tag, b.tag))
+
+    def area(vm, cal, args):
+        a = args[0]
+        while isinstance(a, Ref):
+            a = vm.deref(a)
+        vm.notes.setdefault('areas', []).append(a.tag)
+        return vm.notes['clip_area']
+
+    def too_far(vm, cal, args):
+        return vm.notes['too_far']
+    return {('Polygon', 'From', 'from'): poly_from, (None, None, 'sutherland_hodgman_clip'): clip, ('Polygon', 'Area', 'unsigned_area'): area,
+            ('Universal2DBox', None, 'too_far'): too_far}
+
+
+def _sym_ubox(vm, P, tag):
+    has_angle = vm.choose_n(2, "%s angle given" % tag) == 0
+    ang = vm.fresh('f32', tag + '_angle')
+    vm.assume(fp_in(ang, -10.0, 10.0))
+    xc, yc = vm.fresh('f32', tag + '_xc'), vm.fresh('f32', tag + '_yc')
+    vm.assume(z3.And(fp_in(xc, -1.0e4, 1.0e4), fp_in(yc, -1.0e4, 1.0e4)))
+    asp = grid_f32(vm, tag + '_aspect', [0.5, 1.0, 2.0])
+    h = grid_f32(vm, tag + '_height', [1.0, 2.0, 4.0])
+    stale = vm.choose_n(2, "%s carries a vertex cache" % tag) == 0
+    cache = SOME(Opaque('Polygon', ('stale', tag))) if stale else NONE
+    return Adt('Universal2DBox', 0, (xc, yc, SOME(ang) if has_angle else NONE, asp, h, f32(1.0), cache)), dict(has_angle=has_angle, ang=ang, xc=xc, yc=yc, asp=asp, h=h, stale=stale)
+
+
+def q_ubox_intersection(vm, P):
+    fn = P.impl_methods[('Universal2DBox', None, 'intersection')][0][0]
+    l, li = _sym_ubox(vm, P, 'l')
+    r, ri = _sym_ubox(vm, P, 'r')
+    far = vm.fresh('bool', 'too_far')
+    ca = f_to(grid_f32(vm, 'clip_area', [0.0, 0.5, 1.0, 3.0, 8.0]), F64)
+    vm.notes.update(too_far=far, clip_area=ca)
+    lc, rc = Cell(l, 'l'), Cell(r, 'r')
+    res = vm.exec_fn(fn, [Ref(lc), Ref(rc)], {})
+    vm.check(BOOL(lc.v is l and rc.v is r), "the arguments are not modified")
+    if vm.branch(far):
+        vm.check(f_eq(res, z3.FPVal(0.0, F64)), "pairs rejected by the pre-filter have intersection 0")
+        return
+    def key(i):
+        return (repr(fp_plain(i['xc'])), repr(fp_plain(i['yc'])), repr(fp_plain(i['ang'])) if i['has_angle'] else repr(z3.FPVal(0.0, F32)), repr(i['asp']), repr(i['h']))
+    clips = vm.notes.get('clips', [])
+    vm.check(BOOL(len(clips) == 1), "one clip of the two polygons")
+    if len(clips) == 1:
+        a, b = clips[0]
+        vm.check(BOOL(a == ('poly', key(li)) and b == ('poly', key(ri))),
+                 "the clipped polygons are generated from the boxes' current centre / angle (None = 0) / aspect / height, never from a cached copy")
+        vm.check(BOOL(vm.notes.get('areas', []) == [('clip', a, b)]), "the result is the area of that clip")
+    vm.check(z3.fpToIEEEBV(fp_plain(res)) == z3.fpToIEEEBV(fp_plain(ca)), "intersection = area of the clip polygon")
+
+
+def _mk_iou_wrapper(kind):
+    def q(vm, P):
+        inter = f_to(grid_f32(vm, 'intersection', [0.0, 0.5, 1.0, 3.0, 8.0]), F64)
+
+        def isect(vm_, cal, args):
+            vm_.notes['isect_calls'] = vm_.notes.get('isect_calls', 0) + 1
+            return inter
+        vm.spec_calls[('Universal2DBox', None, 'intersection')] = isect
+        boxes = []
+        for tag in ('l', 'r'):
+            asp = grid_f32(vm, tag + '_aspect', [0.5, 1.0, 2.0])
+            h = grid_f32(vm, tag + '_height', [1.0, 2.0, 4.0])
+            boxes.append((Adt('Universal2DBox', 0, (f32(1.0), f32(2.0), NONE, asp, h, f32(1.0), NONE)), asp, h))
+        present = [vm.choose_n(2, "left present") == 0, vm.choose_n(2, "right present") == 0]
+        if kind == 'ubox':
+            fn = P.impl_methods[('Universal2DBox', 'ObservationAttributes', 'calculate_metric_object')][0][0]
+            vals = [SOME(Ref(Cell(b[0], 'b'))) if p else NONE for b, p in zip(boxes, present)]
+            has_box = [True, True]
+        else:
+            fn = P.impl_methods[('VisualObservationAttributes', 'ObservationAttributes', 'calculate_metric_object')][0][0]
+            has_box = [vm.choose_n(2, "left box kept") == 0, vm.choose_n(2, "right box kept") == 0]
+            vals = [SOME(Ref(Cell(mk(P, 'VisualObservationAttributes', bbox=SOME(b[0]) if hb else NONE, visual_quality=f32(0.5), own_area_percentage=NONE), 'v'))) if p else NONE
+                    for b, p, hb in zip(boxes, present, has_box)]
+        r = vm.exec_fn(fn, [Ref(Cell(vals[0], 'lo')), Ref(Cell(vals[1], 'ro'))], {})
+        if not (all(present) and all(has_box)):
+            vm.check(BOOL(r.variant == 0), "no IoU when a box is missing")
+            return
+        zero = f_eq(inter, z3.FPVal(0.0, F64))
+        vm.check(z3.If(zero, BOOL(r.variant == 0), BOOL(r.variant == 1)), "IoU is absent exactly when the boxes do not overlap")
+        if r.variant == 1:
+            areas = [f_mul(f_mul(b[2], b[2]), b[1]) for b in boxes]
+            union = f_sub(f_to(f_add(areas[0], areas[1]), F64), inter)
+            want = f_to(f_div(inter, union), F32)
+            vm.check(z3.fpToIEEEBV(fp_plain(r.fields[0])) == z3.fpToIEEEBV(fp_plain(want)), "IoU = intersection / (area1 + area2 - intersection)")
+    return q
+
+
+GEO_REPLAY = r'''
+use similari::track::ObservationAttributes;
+use similari::trackers::visual_sort::observation_attributes::VisualObservationAttributes;
+use similari::utils::bbox::{BoundingBox, Universal2DBox};
+
+fn overlap(a: (f32, f32, f32, f32), b: (f32, f32, f32, f32)) -> f64 {
+    let w = (a.0 + a.2).min(b.0 + b.2) - a.0.max(b.0);
+    let h = (a.1 + a.3).min(b.1 + b.3) - a.1.max(b.1);
+    if w > 0.0 && h > 0.0 { (w * h) as f64 } else { 0.0 }
+}
+
+#[test]
+fn replay() {
+    // axis-aligned boxes (angle None, Some(0), boxes whose vertex cache was generated BEFORE they were moved / turned)
+    let rects = [(0.0f32, 0.0f32, 10.0f32, 10.0f32), (5.0, 5.0, 10.0, 10.0), (2.0, 2.0, 4.0, 4.0), (100.0, 0.0, 5.0, 5.0), (90.0, 90.0, 5.0, 5.0), (0.0, 0.0, 100.0, 100.0), (9.0, 0.0, 40.0, 2.0)];
+    for a in &rects { for b in &rects { for mode in 0..4 {
+        let mut ua: Universal2DBox = BoundingBox::new(a.0, a.1, a.2, a.3).into();
+        let mut ub: Universal2DBox = BoundingBox::new(b.0, b.1, b.2, b.3).into();
+        match mode {
+            1 => { ua = ua.rotate(0.0); ub = ub.rotate(0.0); }
+            2 => { // cache generated at another place, then the box is moved to where it belongs
+                ua = Universal2DBox::new(ua.xc + 500.0, ua.yc, Some(0.0), ua.aspect, ua.height); ua.gen_vertices(); ua.xc -= 500.0; }
+            3 => { // cache generated at another angle, then the box is turned back
+                ub = ub.rotate(1.0); ub.gen_vertices(); ub.rotate_mut(0.0); }
+            _ => {}
+        }
+        let exact = overlap(*a, *b);
+        let got = Universal2DBox::intersection(&ua, &ub);
+        assert!((got - exact).abs() <= 1e-3 * (1.0 + exact), "intersection of {:?} and {:?} (mode {}): {} vs {}", a, b, mode, got, exact);
+        let iou = Universal2DBox::calculate_metric_object(&Some(&ua), &Some(&ub));
+        let iou_r = Universal2DBox::calculate_metric_object(&Some(&ub), &Some(&ua));
+        if exact == 0.0 { assert!(iou.is_none() && iou_r.is_none(), "IoU absent exactly when the boxes do not overlap: {:?} {:?} mode {}", a, b, mode); } else {
+            let want = exact / ((a.2 * a.3 + b.2 * b.3) as f64 - exact);
+            assert!((iou.unwrap() as f64 - want).abs() < 1e-3 && (iou_r.unwrap() as f64 - want).abs() < 1e-3, "IoU of {:?} {:?} mode {}", a, b, mode);
+        }
+        assert_eq!(Universal2DBox::too_far(&ua, &ub), Universal2DBox::too_far(&ub, &ua), "too_far symmetric");
+        if exact > 0.0 { assert!(!Universal2DBox::too_far(&ua, &ub), "too_far must not reject overlapping boxes"); }
+        let (va, vb) = (VisualObservationAttributes::new(0.5, ua.clone()), VisualObservationAttributes::new(0.5, ub.clone()));
+        assert_eq!(VisualObservationAttributes::calculate_metric_object(&Some(&va), &Some(&vb)).is_none(), exact == 0.0);
+    } } }
+}
+'''
+
+
+def _replay_geo(cex, v, vm):
+    return GEO_REPLAY
+
+
+U = "similari::utils::bbox::Universal2DBox::"
+MIR = [
+    MQ("c08_ubox_intersection", "quick", q_ubox_intersection, "Universal2DBox::intersection = 0 when too far, else area of the clip of the polygons of the CURRENT boxes; arguments untouched; stale caches never trusted",
+       "free centres / angles, sizes from exact grids, angle and vertex cache present or absent on either box", [U + "intersection", U + "gen_vertices", U + "rotate_mut", "Clone for Universal2DBox"],
+       spec_calls=_geo_calls, replay=_replay_geo),
+    MQ("c08_iou_wrapper_ubox", "quick", _mk_iou_wrapper('ubox'), "Universal2DBox IoU: None iff intersection 0 or a box missing, else I/(A1+A2-I)", "intersection and sizes from exact grids",
+       ["similari::utils::bbox::Universal2DBox::calculate_metric_object"], replay=_replay_geo),
+    MQ("c08_iou_wrapper_visual", "quick", _mk_iou_wrapper('visual'), "VisualObservationAttributes IoU: None iff intersection 0 or a box missing, else I/(A1+A2-I)", "same",
+       ["similari::trackers::visual_sort::observation_attributes::VisualObservationAttributes::calculate_metric_object"], replay=_replay_geo),
+]
